@@ -16,6 +16,7 @@
   * `append_mode_keeps_prefix`                    with only "+" file specs every file keeps its previous content as prefix
 -/
 import MitmVerif.Lemmas.C39
+import MitmVerif.Lemmas.C39Coh
 namespace MitmVerif.Props.C39
 open MitmVerif.C39 MitmVerif.Lemmas.C39
 
@@ -511,6 +512,167 @@ theorem overwrite_open_truncates (fs : FS C) (p : Path) :
     (fsStep fs (.opn p false)).files p = [] := by
   simp [fsStep]
 
+-- ------------------------------------------------------------------------------------------ whole lifecycles
+private theorem run_append (env : Env F C) : ∀ (a b : List (Ev F C)) (s : St F C),
+    run env s (a ++ b) = ((run env (run env s a).1 b).1, (run env s a).2 ++ (run env (run env s a).1 b).2) := by
+  intro a
+  induction a with
+  | nil => intro b s; simp [run]
+  | cons e es ih => intro b s; simp [run, ih, List.append_assoc]
+
+private theorem quiet_no_writes (env : Env F C) (f : FlowId) (evs : List (Ev F C)) :
+    ∀ s : St F C, Inv s → Quiet env f s evs →
+      (writes (run env s evs).2).filter (fun r => r.flow == f) = [] := by
+  induction evs with
+  | nil => intro s _ _; simp [run]
+  | cons e es ih =>
+    intro s hi hq
+    obtain ⟨q1, q2, _, q4⟩ := hq
+    simp only [run, writes_append, List.filter_append]
+    rw [ih _ (step_inv env s e hi) q4, List.append_nil, List.filter_eq_nil_iff]
+    intro r hr hrf
+    have hfl : r.flow = f := by simpa using hrf
+    rcases no_record_before_completion_except_stop env s e hi r hr with ⟨h, he, hc⟩ | he | ⟨filt, he⟩
+    · subst he
+      rw [hfl] at hc
+      simp [completes] at q1
+      have := q1 hfl
+      rw [hfl, hc] at this
+      cases this
+    · subst he; simp [stops] at q2
+    · subst he; simp [stops] at q2
+
+private theorem quiet_not_exited (env : Env F C) (f : FlowId) (evs : List (Ev F C)) :
+    ∀ t : St F C, t.exited = false → Quiet env f t evs → (run env t evs).1.exited = false := by
+  induction evs with
+  | nil => intro t ht _; exact ht
+  | cons e es ih => intro t _ hq; exact ih _ hq.2.2.1 hq.2.2.2
+
+/-- **C39 (whole lifecycle, every interleaving).** Let flow f get a start hook while streaming, let ANY history
+    follow in which f does not complete, saving is not stopped and the process does not exit — arbitrary hooks of
+    other flows, edits of f, filter changes (also unparsable ones), file changes (also failing ones), clock ticks
+    with rotations — and then let f's completion hook arrive.  Over the WHOLE history the records of f that were
+    written are: exactly one, carrying f's content at completion, if f passes the filter in effect at completion;
+    none otherwise.  (Side condition as in the one-step theorem: the rotation target at completion can be opened.) -/
+theorem lifecycle_written_exactly_once (env : Env F C) (s0 : St F C) (hs hc : Hook) (f : FlowId)
+    (mid : List (Ev F C)) (hi : Inv s0) (hx : s0.exited = false) (hopen : s0.stream.isSome = true)
+    (hstart : hs.isStart = true) (hq : Quiet env f (step env s0 (.hook hs f)).1 mid)
+    (hcomp : isCompletion env (run env s0 (.hook hs f :: mid)).1 hc f = true)
+    (hrot : ∀ spec, (run env s0 (.hook hs f :: mid)).1.optFile = some spec →
+              rotate env (run env s0 (.hook hs f :: mid)).1 spec ≠ none) :
+    (writes (run env s0 (.hook hs f :: mid ++ [.hook hc f])).2).filter (fun r => r.flow == f) =
+      (if passes env (run env s0 (.hook hs f :: mid)).1.filt f ((run env s0 (.hook hs f :: mid)).1.world f)
+       then [⟨f, (run env s0 (.hook hs f :: mid)).1.world f⟩] else []) := by
+  have h1 : step env s0 (.hook hs f) =
+      ({ s0 with active := if s0.active.contains f then s0.active else f :: s0.active }, []) := by
+    unfold step hookOp; simp [hx, hstart, hopen]
+  have hi1 : Inv (step env s0 (.hook hs f)).1 := step_inv env s0 _ hi
+  have hm1 : f ∈ (step env s0 (.hook hs f)).1.active := by
+    rw [h1]; simp only
+    split
+    · rename_i hc'; simpa using hc'
+    · simp
+  have hs1 : (step env s0 (.hook hs f)).1.stream.isSome = true := by rw [h1]; exact hopen
+  have hx1 : (step env s0 (.hook hs f)).1.exited = false := by rw [h1]; exact hx
+  obtain ⟨his, _, hss⟩ := quiet_keeps env f mid _ hi1 hm1 hs1 hq
+  have hex := quiet_not_exited env f mid _ hx1 hq
+  have hrun : (run env s0 (.hook hs f :: mid)).1 = (run env (step env s0 (.hook hs f)).1 mid).1 := rfl
+  have hpre : (writes (run env s0 (.hook hs f :: mid)).2).filter (fun r => r.flow == f) = [] := by
+    simp only [run, writes_append, List.filter_append]
+    rw [quiet_no_writes env f mid _ hi1 hq, h1]; simp
+  have hlist : (Ev.hook hs f :: mid ++ [Ev.hook hc f]) = (Ev.hook hs f :: mid) ++ [Ev.hook hc f] := rfl
+  rw [hlist, run_append]
+  simp only [writes_append, List.filter_append, hpre, List.nil_append]
+  rw [← hrun] at his hss hex
+  obtain ⟨a, _, _⟩ := completion_appends_exactly_one_if_match env _ hc f his hex hss hcomp hrot
+  simp only [run, List.append_nil]
+  rw [hrun] at a
+  rw [a]
+  split
+  · rename_i hp; simp [hp]
+  · rename_i hp; simp [hp]
+
+/-- **C39 (which file).** A completion hook of a matching flow puts the record at the end of the file whose name
+    is the strftime-formatted pattern at the time of the hook: if that is the file already open nothing else
+    changes, otherwise the file is opened first (keeping its content in append mode, emptying it in overwrite
+    mode).  No other file changes.  `fs.cur = s.curPath` says the file system's open handle is the addon's. -/
+theorem completion_record_goes_to_formatted_path (env : Env F C) (s : St F C) (h : Hook) (f : FlowId)
+    (spec : Spec) (fs : FS C) (hi : Inv s) (hx : s.exited = false) (hs : s.stream.isSome = true)
+    (hc : isCompletion env s h f = true) (ho : s.optFile = some spec) (hrot : rotate env s spec ≠ none)
+    (hcoh : fs.cur = s.curPath) (hp : passes env s.filt f (s.world f) = true) :
+    (step env s (.hook h f)).1.curPath = some (env.fmt spec.pat s.now) ∧
+    (fsRun fs (step env s (.hook h f)).2).cur = some (env.fmt spec.pat s.now) ∧
+    (fsRun fs (step env s (.hook h f)).2).files (env.fmt spec.pat s.now) =
+      (if s.curPath = some (env.fmt spec.pat s.now) then fs.files (env.fmt spec.pat s.now)
+       else if spec.append then fs.files (env.fmt spec.pat s.now) else []) ++ [⟨f, s.world f⟩] ∧
+    (∀ q, q ≠ env.fmt spec.pat s.now → (fsRun fs (step env s (.hook h f)).2).files q = fs.files q) := by
+  rw [hook_completion_eq env s h f hx hc]
+  rcases saveFlow_cases env s f with ⟨h0, _⟩ | ⟨_, h1, _⟩ | ⟨sp, _, h1, h2, _⟩ | ⟨sp, s', io, flt, _, h1, hr, hs', hh⟩ |
+      ⟨sp, s', io, h0, _, hr, hs', _⟩
+  · rw [h0] at hs; simp at hs
+  · rw [ho] at h1; simp at h1
+  · rw [ho] at h1; cases h1; exact absurd h2 hrot
+  · rw [ho] at h1; cases h1
+    rw [hh]
+    obtain ⟨_, _, b3, _, b5, _, _, hcases⟩ := rotate_facts env s s' spec io hr
+    have hflt : flt = s.filt := by
+      rcases hcases with ⟨rfl, _, _⟩ | ⟨h1', _, _, _⟩
+      · exact hi.flt flt hs'
+      · rw [h1'] at hs'; exact (Option.some.inj hs').symm
+    have hadd : add env flt s'.world f = [.wr ⟨f, s.world f⟩] := by
+      rw [hflt, b5]; simp [add, hp]
+    rw [hadd]
+    rcases hcases with ⟨rfl, rfl, hcp⟩ | ⟨_, hcp', rfl, _⟩
+    · have hcur : fs.cur = some (env.fmt spec.pat s'.now) := by rw [hcoh, hcp]
+      refine ⟨hcp, ?_, ?_, ?_⟩
+      · simp [fsRun, fsStep, hcur]
+      · simp [fsRun, fsStep, hcur, hcp]
+      · intro q hq; simp [fsRun, fsStep, hcur, hq]
+    · have hne : s.curPath ≠ some (env.fmt spec.pat s.now) := by
+        intro heq
+        unfold rotate at hr
+        simp [heq] at hr
+      refine ⟨hcp', ?_, ?_, ?_⟩
+      · simp [fsRun, fsStep]
+      · simp [fsRun, fsStep, hne]
+      · intro q hq; simp [fsRun, fsStep, hq]
+  · exfalso
+    have := (rotate_W env s s' sp io hr hi.toW).2 h0
+    rw [hs'] at this; simp at this
+
+/-- along every history from the initial state the file system's open stream handle is the addon's
+    `current_path` (this discharges the hypothesis `fs.cur = s.curPath` of the previous theorem) -/
+theorem stream_file_handle_is_current_path (env : Env F C) (w : FlowId → C) (evs : List (Ev F C)) (fs0 : FS C)
+    (h0 : fs0.cur = none) :
+    (fsRun fs0 (run env (init w) evs).2).cur = (run env (init w) evs).1.curPath :=
+  run_cur env evs _ fs0 (init_inv w) h0
+
+/-- **C39 (which file, every reachable state).** After ANY history from the initial state (all interleavings,
+    filter and file changes, rotations), a completion hook of a matching flow appends its record to the file
+    named by the pattern formatted with the clock at that moment, and changes no other file. -/
+theorem completion_file_reachable (env : Env F C) (w : FlowId → C) (pre : List (Ev F C)) (h : Hook) (f : FlowId)
+    (spec : Spec) (fs0 : FS C) (h0 : fs0.cur = none)
+    (hx : (run env (init w) pre).1.exited = false) (hs : (run env (init w) pre).1.stream.isSome = true)
+    (hc : isCompletion env (run env (init w) pre).1 h f = true)
+    (ho : (run env (init w) pre).1.optFile = some spec) (hrot : rotate env (run env (init w) pre).1 spec ≠ none)
+    (hp : passes env (run env (init w) pre).1.filt f ((run env (init w) pre).1.world f) = true) :
+    (fsRun fs0 (run env (init w) (pre ++ [.hook h f])).2).files (env.fmt spec.pat (run env (init w) pre).1.now) =
+      (if (run env (init w) pre).1.curPath = some (env.fmt spec.pat (run env (init w) pre).1.now)
+       then (fsRun fs0 (run env (init w) pre).2).files (env.fmt spec.pat (run env (init w) pre).1.now)
+       else if spec.append then (fsRun fs0 (run env (init w) pre).2).files (env.fmt spec.pat (run env (init w) pre).1.now)
+       else []) ++ [⟨f, (run env (init w) pre).1.world f⟩] ∧
+    (∀ q, q ≠ env.fmt spec.pat (run env (init w) pre).1.now →
+      (fsRun fs0 (run env (init w) (pre ++ [.hook h f])).2).files q = (fsRun fs0 (run env (init w) pre).2).files q) := by
+  have hcoh := stream_file_handle_is_current_path env w pre fs0 h0
+  have key := completion_record_goes_to_formatted_path env _ h f spec (fsRun fs0 (run env (init w) pre).2)
+    (reachable_inv env w pre) hx hs hc ho hrot hcoh hp
+  have hsplit : fsRun fs0 (run env (init w) (pre ++ [.hook h f])).2 =
+      fsRun (fsRun fs0 (run env (init w) pre).2) (step env (run env (init w) pre).1 (.hook h f)).2 := by
+    rw [run_append]
+    simp [fsRun, List.foldl_append, run]
+  rw [hsplit]
+  exact ⟨key.2.2.1, key.2.2.2⟩
+
 -- ------------------------------------------------------------------------------------------ non-vacuity
 section Examples
 private def envx : Env Nat Nat :=
@@ -538,6 +700,10 @@ example : writes (run envx (init (fun _ => 0))
 example : Quiet envx 2 (run envx (init (fun _ => 0)) [.update (some (some ⟨false, 0⟩)) none, .hook .tcpStart 2]).1
     [.hook .request 1, .edit 2 5, .update none (some (.ok 1)), .hook .response 1, .tick 3] := by
   simp only [Quiet]; decide
+-- the whole-lifecycle theorem on a concrete interleaving with a filter change and a rotation in between
+example : (writes (run envx (init (fun _ => 0))
+    [.update (some (some ⟨false, 0⟩)) none, .hook .tcpStart 2, .hook .request 1, .edit 2 5, .update none (some (.ok 1)),
+     .tick 3, .hook .response 1, .hook .tcpEnd 2]).2).filter (fun r => r.flow == 2) = [⟨2, 5⟩] := by decide
 end Examples
 
 end MitmVerif.Props.C39
